@@ -16,6 +16,15 @@ type LockScope struct {
 
 // LockScopes finds the Lock calls on the mutex whose receiver origin ends in fieldSuffix (e.g. "MTProto.seqNoMutex").
 func LockScopes(fn *ssa.Function, fieldSuffix string) []LockScope {
+	return lockScopes(fn, fieldSuffix, false)
+}
+
+// RLockScopes: the shared sections (RLock … RUnlock) of an RWMutex.
+func RLockScopes(fn *ssa.Function, fieldSuffix string) []LockScope {
+	return lockScopes(fn, fieldSuffix, true)
+}
+
+func lockScopes(fn *ssa.Function, fieldSuffix string, shared bool) []LockScope {
 	tr := NewTracer()
 	isMu := func(c *ssa.CallCommon) bool {
 		args := CallArgs(c)
@@ -31,6 +40,18 @@ func LockScopes(fn *ssa.Function, fieldSuffix string) []LockScope {
 			}
 			name := CalleeName(ci.Common())
 			switch {
+			case shared && name == "(*sync.RWMutex).RLock" && isMu(ci.Common()):
+				if _, isCall := in.(*ssa.Call); isCall {
+					scopes = append(scopes, LockScope{Fn: fn, Lock: in})
+				}
+			case shared && name == "(*sync.RWMutex).RUnlock" && isMu(ci.Common()):
+				if _, isDefer := in.(*ssa.Defer); isDefer {
+					deferred = append(deferred, in)
+				} else {
+					unlocks = append(unlocks, in)
+				}
+			case shared:
+				// only the shared operations count in this mode
 			case (name == "(*sync.Mutex).Lock" || name == "(*sync.RWMutex).Lock") && isMu(ci.Common()):
 				if _, isCall := in.(*ssa.Call); isCall {
 					scopes = append(scopes, LockScope{Fn: fn, Lock: in})
